@@ -51,14 +51,14 @@ Definition class_of (e : err) : N :=
 Definition detail_of (e : err) : list N :=
   match e with BadSyntax t => t | NotDefined n => n | NeedsArg n => n end.
 
-Definition no_oracle : oracle := fun _ _ => SErr.
+Definition no_oracle (int_size : N) : oracle := {| o_int_size := int_size; o_parse := fun _ _ => SErr |}.
 
 (** [None]: the text is outside the modelled sub-language of the kind's parser (see
     Model/FlagValue.v) — the check is lenient there. *)
-Definition set_known (k : kind) (t : list N) : option sres :=
+Definition set_known (isz : N) (k : kind) (t : list N) : option sres :=
   match t with
-  | [] => Some (set_T no_oracle k t)
-  | _ => if in_model k t then Some (set_T no_oracle k t) else None
+  | [] => Some (set_T (no_oracle isz) k t)
+  | _ => if in_model k t then Some (set_T (no_oracle isz) k t) else None
   end.
 
 Fixpoint tokens_eqb (a b : list token) : bool :=
@@ -90,7 +90,7 @@ Definition all_ok : verdict := {| v_class := true; v_args := true; v_help := tru
 Definition is_err (r : option sres) : bool := match r with Some SErr => true | _ => false end.
 Definition is_unknown (r : option sres) : bool := match r with None => true | _ => false end.
 
-Definition check_case (flags : list flagdef) (vec : list token)
+Definition check_case (int_size : N) (flags : list flagdef) (vec : list token)
     (cls : N) (detail : list N) (args : list token) (help : bool) (fields : list (list N)) : verdict :=
   match arg_parse (table_of flags) vec with
   | Panic => {| v_class := false; v_args := false; v_help := false; v_fields := false; v_detail := false; v_lenient := false |}
@@ -104,8 +104,8 @@ Definition check_case (flags : list flagdef) (vec : list token)
           {| v_class := negb (cls =? cls_panic); v_args := true; v_help := true; v_fields := true; v_detail := true; v_lenient := true |}
       | _ =>
           let rs := map (fun f => match final_value asg (fst (fst f)) with
-                                  | Some t => set_known (snd (fst f)) t
-                                  | None => set_known (snd (fst f)) (snd f)
+                                  | Some t => set_known int_size (snd (fst f)) t
+                                  | None => set_known int_size (snd (fst f)) (snd f)
                                   end) flags in
           let lenient := existsb is_unknown rs in
           if existsb is_err rs then
